@@ -356,6 +356,14 @@ def build_world(seed, quick=True):
     _add_obj("Daily", "D.rep_series_nofreq", spec("DailyReportingData", "from_series", ["D.ser_meter_nf", "D.ser_temp_nf"]),
              "reporting", "2 months", problems=problems)
 
+    # from_series with DataFrames: the temperature frame already carries the column name and lives in another time zone
+    TPL["D.fr_meter"] = rep[["observed"]].iloc[59:119].copy()
+    tu = hr[["temperature"]].copy()
+    tu.index = tu.index.tz_convert("UTC")
+    TPL["D.fr_temp_utc"] = tu
+    _add_obj("Daily", "D.rep_frames_utc", spec("DailyReportingData", "from_series", ["D.fr_meter", "D.fr_temp_utc"]),
+             "reporting", "2 months", problems=problems)
+
     # ---------------- billing
     for k, nm in enumerate(["base", "other1"]):
         m, t = F.billing_series(rng, tz=tz)
@@ -374,6 +382,13 @@ def build_world(seed, quick=True):
                  "reporting", span, problems=problems)
         _add_obj("Billing", "B.rep_" + key + "_noobs", spec("BillingReportingData", "from_series", [None, "B.rep_%s_t" % key]),
                  "reporting", span, observed=False, problems=problems)
+    if "B.rep_6periods_m" in TPL:
+        TPL["B.fr_meter"] = TPL["B.rep_6periods_m"].to_frame("observed")
+        tb = TPL["B.rep_6periods_t"].to_frame("temperature")
+        tb.index = tb.index.tz_convert("UTC")
+        TPL["B.fr_temp_utc"] = tb
+        _add_obj("Billing", "B.rep_frames_utc", spec("BillingReportingData", "from_series", ["B.fr_meter", "B.fr_temp_utc"]),
+                 "reporting", "6 periods", problems=problems)
     # the frame constructor of the billing classes: take the daily frame a data object exposes
     if "B.rep_6periods" in OBJ:
         fr = OBJ["B.rep_6periods"]["obj"].df[["observed", "temperature"]]
